@@ -209,7 +209,14 @@ def eval_case(lane, client, case):
             continue          # line sent only for its effect on the model state
         if a != b:
             diffs.append({'index': i, 'line': lines[i], 'impl': a, 'model': b})
-    return {'case': case, 'diffs': diffs[:5], 'ndiffs': len(diffs), 'oracle': r.get('oracle', [])[:5],
+    oracle = list(r.get('oracle', []))
+    if getattr(lane, 'DIFF_IS_FAILURE', False) and diffs:
+        # the model's reply IS the property's reference behaviour for this lane: a deviation is a failing input
+        d = diffs[0]
+        oracle.append(lane.diff_failure(case, d) if hasattr(lane, 'diff_failure') else
+                      f"implementation deviates from the reference model at `{d['line'][:80]}`: "
+                      f"impl={d['impl'][:160]!r} reference={d['model'][:160]!r}")
+    return {'case': case, 'diffs': diffs[:5], 'ndiffs': len(diffs), 'oracle': oracle[:5],
             'nontrivial': bool(r.get('nontrivial', False)), 'key': r.get('key', ''), 'tags': r.get('tags', []),
             'nlines': len(lines)}
 
@@ -337,6 +344,10 @@ def write_json(path, obj):
 
 def run_check(prop, tier, seed, replay=None, jobs=None):
     t0 = time.time()
+    import logging
+    import warnings
+    warnings.simplefilter('ignore')
+    logging.disable(logging.CRITICAL)
     lane = load_lane(prop)
     rng = random.Random(seed)
     jobs = jobs or int(os.environ.get('VERIF_JOBS', '14'))
@@ -420,6 +431,10 @@ def run_check(prop, tier, seed, replay=None, jobs=None):
 
     # ---- verdict --------------------------------------------------------------------------
     os.makedirs(os.path.join(VERIF, 'replays'), exist_ok=True)
+    if not replay:
+        for f in os.listdir(os.path.join(VERIF, 'replays')):
+            if f.startswith(f'{prop}-{seed}-'):
+                os.remove(os.path.join(VERIF, 'replays', f))
     known = [k for k in load_known() if k['property'] == prop]
     open_sigs = {k['signature']: k for k in known if k.get('status') == 'open'}
     seen_known = {}
